@@ -499,6 +499,21 @@ def subset_sweep(ck, n_cfg, pool_size):
         check_cases(ck, cases[i:i + 300])
 
 
+PLAN_CMD = None
+
+
+def plan_commands(stdout):
+    """the harness command tails of an execution plan.  Under the parallel scheduler several worker threads print
+    plan lines at the same time and print() writes text and newline separately, so two lines can arrive glued
+    together: commands are therefore found by their shape, not line by line (a command tail contains no '/',
+    the next command and the `cd <dir>` lines start with one)"""
+    import re
+    global PLAN_CMD
+    if PLAN_CMD is None:
+        PLAN_CMD = re.compile(r'harness_\d+(?:(?!cd /|/)[^\n])*')
+    return [m.group(0).strip() for m in PLAN_CMD.finditer(stdout)]
+
+
 def sessions(ck, n):
     """whole sessions: the -p plan lists one command per scheduled run; an execution starts each exactly
     once under every scheduler (batch, round-robin, random, and the parallel one for non-exclusive runs
@@ -537,7 +552,7 @@ def sessions(ck, n):
             (['-s', sched] if sched in ('batch', 'round-robin', 'random') else []) + [conf] + \
             ([sel['exp']] if sel['exp'] else []) + sel['filters']
         r1 = drive.run_session(wd, ['-p'] + argv, lambda rec: drive.Outcome(0, ''), cpu_count=cpus)
-        plan = [l for l in r1.stdout.split('\n') if 'harness_' in l]
+        plan = plan_commands(r1.stdout)
         r2 = drive.run_session(wd, argv, lambda rec: drive.Outcome(0, 'B: iterations=1 runtime: 1000us\n'),
                                cpu_count=cpus)
         ck.impl_traces += 2
@@ -692,7 +707,7 @@ def cli_plans(ck, n):
             r = subprocess.run([sys.executable, '-B', '-m', 'rebench.rebench'] + argv, cwd=wd, env=env,
                                stdout=subprocess.PIPE, stderr=subprocess.STDOUT, text=True, timeout=120)
             ck.impl_traces += 1
-            plans[hs] = (r.returncode, sorted(l[l.index('harness_'):].strip() for l in r.stdout.split('\n') if 'harness_' in l),
+            plans[hs] = (r.returncode, sorted(plan_commands(r.stdout)),
                          r.stdout[-400:])
         inp = {'config': cfg, 'selection': sel, 'cli': True, 'hash_seeds': sorted(plans)}
         al = find_aliases(cfg)
